@@ -339,6 +339,7 @@ func c13(r *core.Report, p *core.Prog, thorough bool) {
 	c13OfferDelta(r, p, w)
 	c13Removal(r, p, w, changes, redO)
 	c13Distinct(r, p, addO)
+	c13SizeAgreement(r, p, w)
 }
 
 func isOfferCall(v ssa.Value) bool {
@@ -532,4 +533,104 @@ func c13Distinct(r *core.Report, p *core.Prog, addO *ssa.Function) {
 		}
 	}
 	r.Check(ok, "C13.distinct", "new_allocation_request:blobber-ids-distinct", "", "before offers are added per blobber, a list with a repeated blobber id is rejected (the same blobber loaded twice passes the capacity test twice and its two copies overwrite each other); offers added in "+where)
+}
+
+// c13SizeAgreement: where a function both charges a blobber's Allocated and creates the
+// blobber's entry of the allocation, the size charged is the size recorded in the entry.
+func c13SizeAgreement(r *core.Report, p *core.Prog, w *pWorld) {
+	r.Rule("C13.size-agreement", "in a function that increases a blobber's Allocated and creates its BlobberAllocation, the amount added and the size given to newBlobberAllocation denote the same value (same SSA value through closure bindings, the same getter on the same object, or structurally equal expressions)")
+	nba := p.Func(pkgStorage + ".newBlobberAllocation")
+	fld := p.Field(pkgStorage, "storageNodeBase", "Allocated")
+	if nba == nil || fld == nil {
+		r.Unresolved("C13.size-agreement", "newBlobberAllocation / storageNodeBase.Allocated")
+		return
+	}
+	type sized struct {
+		v   ssa.Value
+		fn  *ssa.Function
+		pos token.Pos
+	}
+	canon := func(v ssa.Value, f *ssa.Function) (ssa.Value, *ssa.Function) {
+		for i := 0; i < 4; i++ {
+			nv, nf := resolveFreeVar(v, f)
+			if cv, ok := nv.(*ssa.Convert); ok {
+				nv = cv.X
+			}
+			if nv == v && nf == f {
+				break
+			}
+			v, f = nv, nf
+		}
+		return v, f
+	}
+	same := func(a, b sized) bool {
+		av, af := canon(a.v, a.fn)
+		bv, bf := canon(b.v, b.fn)
+		if av == bv {
+			return true
+		}
+		ca, ok1 := av.(*ssa.Call)
+		cb, ok2 := bv.(*ssa.Call)
+		if ok1 && ok2 && ca.Common().StaticCallee() != nil && ca.Common().StaticCallee() == cb.Common().StaticCallee() && len(ca.Call.Args) == 1 && len(cb.Call.Args) == 1 {
+			ra, _ := canon(ca.Call.Args[0], af)
+			rb, _ := canon(cb.Call.Args[0], bf)
+			if ra == rb || canonObj(ra) == canonObj(rb) {
+				return true
+			}
+		}
+		return af == bf && exprEqual(av, bv, 0)
+	}
+	n := 0
+	for _, fn := range w.fns {
+		if fn.Pkg.Pkg.Path() != pkgStorage || isTooling(p, fn) {
+			continue
+		}
+		var incs, sizes []sized
+		for _, f := range withClosures(fn) {
+			for _, c := range findCallsTo(f, nba) {
+				sizes = append(sizes, sized{c.Call.Args[0], f, c.Pos()})
+			}
+			for _, wr := range core.FieldWrites([]*ssa.Function{f}, fld) {
+				st, ok := wr.Instr.(*ssa.Store)
+				if !ok || wr.Addr == nil || isFresh(wr.Addr) {
+					continue
+				}
+				bo, ok := st.Val.(*ssa.BinOp)
+				if !ok || bo.Op != token.ADD {
+					continue
+				}
+				if _, pth := core.BaseObject(bo.X); !strings.HasSuffix(pth, ".Allocated") {
+					continue
+				}
+				if u, isNeg := bo.Y.(*ssa.UnOp); isNeg && u.Op == token.SUB {
+					continue
+				}
+				incs = append(incs, sized{bo.Y, f, st.Pos()})
+			}
+		}
+		if len(incs) == 0 || len(sizes) == 0 {
+			continue
+		}
+		for i, inc := range incs {
+			n++
+			ok := false
+			for _, s := range sizes {
+				if same(inc, s) {
+					ok = true
+				}
+			}
+			r.Check(ok, "C13.size-agreement", fmt.Sprintf("%s:charged#%d", fn.String(), i+1), p.Pos(inc.pos), "the amount added to Allocated is the size recorded in the new BlobberAllocation")
+		}
+		for i, s := range sizes {
+			n++
+			ok := false
+			for _, inc := range incs {
+				if same(inc, s) {
+					ok = true
+				}
+			}
+			r.Check(ok, "C13.size-agreement", fmt.Sprintf("%s:recorded#%d", fn.String(), i+1), p.Pos(s.pos), "the size recorded in the new BlobberAllocation is the amount added to Allocated")
+		}
+	}
+	r.Floor("C13.size-agreement", "charged/recorded sizes compared", n, 4)
 }
